@@ -17,7 +17,9 @@ for sid,rs in runs.items():
     for c,t,rc,nv,first in rs:
         if rc=="rc=1" and "oracle=" in first:
             oracle=first.split("oracle=")[1].split(" ")[0]; break
-    if caught:
+    if any(rc=="dormant" for _,_,rc,_,_ in rs) and not caught:
+        out.append(f"{sid}\tdormant: no longer manifests on the repaired tree (its own demonstration passes)\t")
+    elif caught:
         out.append(f"{sid}\tcaught by {', '.join(dict.fromkeys(caught))}\toracle {oracle}")
     else:
         out.append(f"{sid}\tNOT caught ({'; '.join(other)})\t")
